@@ -64,7 +64,8 @@ type misuseCase struct {
 	N        int    `json:"n"`                       // term count for multi-scalar ops
 	ZeroPos  int    `json:"zero_pos"`                // index of the zero-valued input position; -1: none (receiver-only zero)
 	ZeroKind int    `json:"zero_kind"`               // 0 new(Point), 1 &Point{}, 2 var, 3 after failed SetBytes, 4 after failed SetExtendedCoordinates
-	Vals     [4]int `json:"vals"`                    // alphabet indices for the other positions
+	Vals     [4]int `json:"vals"`                    // alphabet indices for the other positions (point x representation)
+	Sc       [4]int `json:"sc,omitempty"`            // scalar alphabet indices per scalar position (0 = default pattern)
 	NS       int    `json:"ns"`                      // scalar slice length (multi-scalar); -1 = same as N
 	ZeroSc   bool   `json:"zero_scalar,omitempty"`   // the scalar paired with the zero-valued point is 0
 	SamePtr  bool   `json:"same_ptr,omitempty"`      // every Point input position holds the SAME zero-valued pointer
@@ -96,9 +97,41 @@ func zeroPoint(kind int) *edwards25519.Point {
 	}
 }
 
+// misuseAlphabet: the values of the "other" argument positions. The guard
+// reads raw coordinates, so the alphabet holds every point with a zero
+// coordinate (all of E[8]: x = 0 for the identity and (0,-1), y = 0 for the
+// two points of order 4), the generator and a generic mixed point.
 func misuseAlphabet() []ref.Pt {
 	T := ref.Torsion()
-	return []ref.Pt{ref.Identity(), ref.Base(), T[4], ref.Add(T[1], ref.Mul(alpha.GenericScalar, ref.Base()))}
+	al := []ref.Pt{ref.Identity(), ref.Base(), T[4], ref.Add(T[1], ref.Mul(alpha.GenericScalar, ref.Base()))}
+	return append(al, T[1], T[2], T[3], T[5], T[6], T[7])
+}
+
+// misuseVals is the size of the (point, representation) alphabet: entry v is
+// point v%10 in its canonical Z=1 limbs (v < 10) or in a projective
+// representation that depends on the position (v >= 10).
+const misusePts = 10
+const misuseVals = 2 * misusePts
+
+func misusePoint(v, pos int) *edwards25519.Point {
+	al := misuseAlphabet()
+	if v < misusePts {
+		return alpha.MakePoint(al[v], 0)
+	}
+	return alpha.MakePoint(al[v-misusePts], []int{7, 6, 3, 5}[pos%4])
+}
+
+// misuseScalars: 0 is "default pattern"; the others fix the scalar value.
+func misuseScalar(idx int, def *edwards25519.Scalar) *edwards25519.Scalar {
+	switch idx {
+	case 1:
+		return edwards25519.NewScalar()
+	case 2:
+		return mkScalar(big.NewInt(1))
+	case 3:
+		return mkScalar(new(big.Int).Sub(ref.L, big.NewInt(1)))
+	}
+	return def
 }
 
 // inputPositions: number of Point-typed input positions of op (receiver
@@ -116,14 +149,13 @@ func misuseInputs(op string, n int) int {
 }
 
 func runMisuse(c misuseCase) (panicked bool, msg string, recv *edwards25519.Point) {
-	al := misuseAlphabet()
 	nin := misuseInputs(c.Op, c.N)
 	in := make([]*edwards25519.Point, nin)
 	for i := range in {
 		if i == c.ZeroPos {
 			in[i] = zeroPoint(c.ZeroKind)
 		} else {
-			in[i] = alpha.MakePoint(al[c.Vals[i%4]], []int{0, 6, 3, 5}[i%4])
+			in[i] = misusePoint(c.Vals[i%4], i)
 		}
 	}
 	if c.SamePtr {
@@ -184,6 +216,7 @@ func runMisuse(c misuseCase) (panicked bool, msg string, recv *edwards25519.Poin
 			} else if c.ZeroSc {
 				sc[i] = k2
 			}
+			sc[i] = misuseScalar(c.Sc[i%4], sc[i])
 		}
 		if c.Op == "MultiScalarMult" {
 			recv.MultiScalarMult(sc, in)
@@ -240,7 +273,7 @@ func b2b(b bool) byte {
 func init() { register("C15", "model_checking", runC15) }
 
 func runC15(ctx *core.Ctx) {
-	ctx.Rule("the programs quantifier is finite and enumerated completely: every exported Point operation (table cross-checked against reflection) x every Point-typed input position (receiver when read; every index of the points slice for n in 1..3) x 5 ways of producing a zero value x every assignment of a 4-point alphabet to the other positions -> must panic; the same calls with all inputs valid and only the receiver zero-valued -> must not panic and must leave an initialised point; multi-scalar calls with (len scalars, len points) in {0..3}^2 -> panic iff different. states = (operation, zero position, term count) cells, transitions = calls executed. distinct_nontrivial = distinct (op, n, position, outcome) cells")
+	ctx.Rule("the programs quantifier is finite and enumerated completely: every exported Point operation (table cross-checked against reflection) x every Point-typed input position (receiver when read; every index of the points slice for n in 1..3) x 5 ways of producing a zero value x every assignment of the other-argument alphabet to the other positions (10 points: all of E[8] - every point with a zero coordinate - plus the generator and a mixed point, each in canonical Z=1 limbs and in a projective representation; the canonical half when three other positions vary) -> must panic; the same calls with all inputs valid and only the receiver zero-valued -> must not panic and must leave an initialised point; multi-scalar calls with (len scalars, len points) in {0..4}^2 x every assignment of {generic, 0, 1, l-1} to the scalar positions -> panic iff the lengths differ. states = (operation, zero position, term count) cells, transitions = calls executed. distinct_nontrivial = distinct (op, n, position, outcome) cells")
 	ctx.Assume("a panic is observed with recover() in the caller")
 	noteUncovered(ctx)
 	var cases []misuseCase
@@ -263,13 +296,31 @@ func runC15(ctx *core.Ctx) {
 		for zp := -1; zp < nin; zp++ {
 			cells++
 			for zk := 0; zk < 5; zk++ {
-				// all assignments of the alphabet to the other positions (at most 3 others matter)
+				// all assignments of the alphabet to the other positions
+				var others []int
+				for i := 0; i < nin && i < 4; i++ {
+					if i != zp {
+						others = append(others, i)
+					}
+				}
+				// full alphabet (point x representation) for up to two other
+				// positions, the canonical half for three
+				size := misuseVals
+				if len(others) >= 3 {
+					size = misusePts
+				}
 				tuples := 1
-				for i := 0; i < nin && i < 3; i++ {
-					tuples *= 4
+				for range others {
+					tuples *= size
 				}
 				for t := 0; t < tuples; t++ {
-					cases = append(cases, misuseCase{Op: o.op, N: o.n, ZeroPos: zp, ZeroKind: zk, Vals: [4]int{t % 4, (t / 4) % 4, (t / 16) % 4, (t + 1) % 4}, NS: -1})
+					var vals [4]int
+					r := t
+					for _, i := range others {
+						vals[i] = r % size
+						r /= size
+					}
+					cases = append(cases, misuseCase{Op: o.op, N: o.n, ZeroPos: zp, ZeroKind: zk, Vals: vals, NS: -1})
 				}
 			}
 		}
@@ -296,12 +347,28 @@ func runC15(ctx *core.Ctx) {
 			}
 		}
 	}
+	// length mismatches: (len scalars, len points) in {0..4}^2, every
+	// assignment of the scalar alphabet {generic/8 pattern, 0, 1, l-1} to the
+	// scalar positions (a surplus scalar that "contributes nothing" is still a
+	// mismatch), 4 point assignments
 	for _, op := range []string{"MultiScalarMult", "VarTimeMultiScalarMult"} {
-		for n := 0; n <= 3; n++ {
-			for ns := 0; ns <= 3; ns++ {
+		for n := 0; n <= 4; n++ {
+			for ns := 0; ns <= 4; ns++ {
 				cells++
-				for t := 0; t < 4; t++ {
-					cases = append(cases, misuseCase{Op: op, N: n, ZeroPos: -1, ZeroKind: 0, Vals: [4]int{t, (t + 1) % 4, (t + 2) % 4, (t + 3) % 4}, NS: ns})
+				scTuples := 1
+				for i := 0; i < ns; i++ {
+					scTuples *= 4
+				}
+				for st := 0; st < scTuples; st++ {
+					var sc [4]int
+					r := st
+					for i := 0; i < ns; i++ {
+						sc[i] = r % 4
+						r /= 4
+					}
+					for t := 0; t < 4; t++ {
+						cases = append(cases, misuseCase{Op: op, N: n, ZeroPos: -1, ZeroKind: 0, Vals: [4]int{t, (t + 1) % 4, (t + 2) % 4, (t + 3) % 4}, NS: ns, Sc: sc})
+					}
 				}
 			}
 		}
